@@ -6,7 +6,7 @@ Two harnesses (flavour asan, -lcrypto):
 Every case runs all implementations on the same input, compares each with the
 reference and all pairs with each other.
 """
-from vrun import Job
+from vrun import Job, with_alt_flavours
 
 LEVEL = 'exploration'
 RULE = ('per primitive and key size: every admissible length (CBC/ctrcbc: every multiple of the block size 0..4096; '
@@ -56,7 +56,7 @@ def jobs(tier, seed):
                            ['--seed', seed, '--worker', i, '--nworkers', N, '--reps', reps, '--cases', cases,
                             '--split-max', 1024, '--max-len', 4096, '--every-len', 1100],
                            flavour='asan', libs=['-lcrypto'], timeout=to))
-    return out
+    return with_alt_flavours(out, tier, seed)
 
 
 def coverage_extra(res, tier):
